@@ -72,6 +72,9 @@ impl Decoder {
         let mut validator = Validation::new(Algorithm::RS256);
         // TODO: Make "aud" configurable.
         validator.set_audience(&["kuksa.val"]);
+        // An expired token is refused at once (the default would accept it for another 60 s,
+        // while the permissions built from it count as expired from "exp" on)
+        validator.leeway = 0;
 
         Ok(Decoder {
             decoding_key,
